@@ -1,6 +1,7 @@
 package rules
 
 import (
+	"os"
 	"fmt"
 	"go/constant"
 	"go/token"
@@ -874,6 +875,24 @@ func (p *prover) nonNeg(v ssa.Value, depth int) bool {
 			}
 		}
 		return p.nonNeg(x.X, depth+1)
+	case *ssa.Call:
+		// a module function all of whose returns are non-negative
+		if callee := x.Call.StaticCallee(); callee != nil && callee.Blocks != nil && depth < 4 &&
+			callee.Signature.Results().Len() == 1 && isIntType(callee.Signature.Results().At(0).Type()) && callee != p.fn {
+			all, any := true, false
+			for _, b := range callee.Blocks {
+				if ret, ok := b.Instrs[len(b.Instrs)-1].(*ssa.Return); ok && len(ret.Results) == 1 {
+					any = true
+					q := newProver(p.c, nil, callee, b)
+					if !q.nonNeg(ret.Results[0], depth+2) {
+						all = false
+					}
+				}
+			}
+			if all && any {
+				return true
+			}
+		}
 	case *ssa.Phi:
 		for _, e := range x.Edges {
 			if e == ssa.Value(x) {
@@ -1101,4 +1120,177 @@ func dependsOnSelf(ph *ssa.Phi) bool {
 		}
 	}
 	return false
+}
+
+// proveAtCallers: the instruction sits in a helper that is only called statically, and it indexes a slice parameter
+// or a slice field of a pointer parameter with bounds that are parameters plus constants. The obligation is then the
+// callers': it is proved at every call site with the arguments substituted for the parameters, and with the length
+// of the field taken at the call (the helper must not store to the field).
+func proveAtCallers(c *Ctx, fn *ssa.Function, in ssa.Instruction) bool {
+	if fn.Blocks == nil || fn.Parent() != nil {
+		return false
+	}
+	var X ssa.Value
+	var lo, hi ssa.Value // hi exclusive; nil lo = 0, nil hi = len
+	hiPlus := int64(0)
+	switch x := in.(type) {
+	case *ssa.Slice:
+		if x.Max != nil {
+			return false
+		}
+		X, lo, hi = x.X, x.Low, x.High
+	case *ssa.IndexAddr:
+		X, lo, hi, hiPlus = x.X, x.Index, x.Index, 1
+	case *ssa.Index:
+		X, lo, hi, hiPlus = x.X, x.Index, x.Index, 1
+	case *ssa.Lookup:
+		X, lo, hi, hiPlus = x.X, x.Index, x.Index, 1
+	default:
+		return false
+	}
+	switch X.Type().Underlying().(type) {
+	case *types.Slice, *types.Basic:
+	default:
+		return false
+	}
+	paramIdx := func(v ssa.Value) int {
+		for i, q := range fn.Params {
+			if ssa.Value(q) == v {
+				return i
+			}
+		}
+		return -1
+	}
+	// the indexed object
+	xParam, xRecv, xField, xFieldName := -1, -1, "", ""
+	if i := paramIdx(X); i >= 0 {
+		xParam = i
+	} else if ld, ok := X.(*ssa.UnOp); ok && ld.Op == token.MUL {
+		fa, ok := ld.X.(*ssa.FieldAddr)
+		if !ok {
+			return false
+		}
+		t, f, base, ok := FieldOf(fa)
+		if !ok {
+			return false
+		}
+		xRecv = paramIdx(base)
+		if xRecv < 0 {
+			return false
+		}
+		xField, xFieldName = t+"."+f, f
+		for _, b := range fn.Blocks {
+			for _, i2 := range b.Instrs {
+				if c.mayModify(i2, xField) {
+					return false
+				}
+			}
+		}
+	} else {
+		return false
+	}
+	// bounds as parameter + constant
+	type pterm struct {
+		param int // -1: constant
+		off   int64
+	}
+	cp := newProver(c, nil, fn, in.Block())
+	toP := func(v ssa.Value) (pterm, bool) {
+		if v == nil {
+			return pterm{-1, 0}, true
+		}
+		t := cp.norm(v)
+		if !t.ok {
+			return pterm{}, false
+		}
+		if t.sym == "0" {
+			return pterm{-1, t.off}, true
+		}
+		for i, q := range fn.Params {
+			if valKey(q) == t.sym {
+				return pterm{i, t.off}, true
+			}
+		}
+		return pterm{}, false
+	}
+	lt, ok1 := toP(lo)
+	ht, ok2 := toP(hi)
+	if !ok1 || !ok2 {
+		return false
+	}
+	ht.off += hiPlus
+	n := c.P.CHA().Nodes[fn]
+	if n == nil || len(n.In) == 0 {
+		return false
+	}
+	for _, e := range n.In {
+		if e.Site == nil {
+			return false
+		}
+		cc := e.Site.Common()
+		if cc.StaticCallee() != fn || len(cc.Args) != len(fn.Params) {
+			return false
+		}
+		site, ok := e.Site.(ssa.Instruction)
+		if !ok {
+			return false
+		}
+		caller := e.Site.Parent()
+		loads := heapLoadsOf(caller)
+		pr := newProver(c, loads, caller, site.Block())
+		var L string
+		if xParam >= 0 {
+			arg := cc.Args[xParam]
+			pr.lenFacts(arg)
+			L = lenKey(pr.canon(arg))
+		} else {
+			L = fmt.Sprintf("site:%p", site)
+			pr.g.le("0", L, 0)
+			path := baseKey(cc.Args[xRecv]) + "." + xFieldName
+			for i := range loads {
+				o := &loads[i]
+				if o.path != path || o.field != xField || !c.stableBetween(o.in, site, xField) {
+					continue
+				}
+				var ok string
+				if o.val != nil {
+					pr.lenFacts(o.val)
+					ok = lenKey(pr.canon(o.val))
+				} else {
+					pr.valFacts(o.lenOf)
+					ok = valKey(o.lenOf)
+				}
+				pr.g.le(L, ok, 0)
+				pr.g.le(ok, L, 0)
+			}
+		}
+		at := func(t pterm) term {
+			if t.param < 0 {
+				return term{"0", t.off, true}
+			}
+			a := pr.norm(cc.Args[t.param])
+			if !a.ok {
+				return term{}
+			}
+			return term{a.sym, a.off + t.off, true}
+		}
+		l, h := at(lt), at(ht)
+		if !l.ok || !h.ok {
+			return false
+		}
+		if os.Getenv("HV_DEBUG") != "" {
+			fmt.Fprintf(os.Stderr, "proveAtCallers %s at %s: lo>=0 %v lo<=hi %v hi<=L %v\n", fn.Name(), caller.Name(), pr.g.prove("0", l.sym, l.off), pr.g.prove(l.sym, h.sym, h.off-l.off), pr.g.prove(h.sym, L, -h.off))
+		}
+		if !pr.g.prove("0", l.sym, l.off) {
+			return false
+		}
+		if hi != nil {
+			if !pr.g.prove(l.sym, h.sym, h.off-l.off) || !pr.g.prove(h.sym, L, -h.off) {
+				return false
+			}
+		} else if !pr.g.prove(l.sym, L, -l.off) {
+			return false
+		}
+	}
+	return true
 }
